@@ -153,8 +153,9 @@ theorem map_set_rel (l l' : List Opt) (o : Nat) (x x' : Opt) (hl : l.map Opt.noA
     (hx : x.noAlias = x'.noAlias) : (l.set o x).map Opt.noAlias = (l'.set o x').map Opt.noAlias := by
   rw [List.map_set, List.map_set, hl, hx]
 
-theorem matched_eq {a c : Opt} (h : a.noAlias = c.noAlias) (key : Str) :
-    ({ a with called := true, usedAlias := key } : Opt) = { c with called := true, usedAlias := key } := by
+theorem matched_eq {a c : Opt} (h : a.noAlias = c.noAlias) (key : Str) (l : Bool) :
+    ({ a with called := true, usedAlias := key, lowerKeys := l } : Opt) =
+      { c with called := true, usedAlias := key, lowerKeys := l } := by
   cases a; cases c; simp_all [Opt.noAlias]
 
 theorem procPair_aeq (ext : Ext) (s s' : PState) (p : Pair) (h : AEq s s') :
